@@ -101,13 +101,25 @@ pub fn check_accessors(tx: &Transaction, r: &RTx, wire_bytes: &[u8]) -> Result<(
         total += ro.value as u128;
     }
     ensure!(tx.get_input(r.ins.len()).is_none() && tx.get_output(r.outs.len()).is_none(), "get_past_end", "Some", "None past the last element");
-    if total <= u64::MAX as u128 {
-        ensure_eq!(lib_call("satoshis_out", || tx.satoshis_out())?, total as u64, "satoshis_out");
-    }
     ensure_eq!(tx.satoshis_in(), None, "satoshis_in_none");
     let coinbase = r.ins.len() == 1 && r.ins[0].is_null_outpoint();
     ensure_eq!(tx.is_coinbase(), coinbase, "is_coinbase");
+    // the total of the outputs last: it has no u64 answer when the values sum past 2^64 - 1 (known finding output-total-overflow)
+    if total <= u64::MAX as u128 {
+        ensure_eq!(lib_call("satoshis_out", || tx.satoshis_out())?, total as u64, "satoshis_out");
+    } else {
+        let got = crate::engine::catch(|| tx.satoshis_out());
+        // reported after every other check of the case has run
+        let f = (failure("satoshis_out_total_overflow", format!("{} for output values {:?}", got.map(|v| format!("Ok({})", v)).unwrap_or_else(|p| format!("panic ({})", clip(&p, 120))), r.outs.iter().map(|x| x.value).collect::<Vec<_>>()), format!("the total {} of the output values the decoder reads (it does not fit the accessor's u64)", total)));
+        DEFERRED.with(|d| {
+            d.borrow_mut().get_or_insert(f);
+        });
+    }
     Ok(())
+}
+
+thread_local! {
+    static DEFERRED: std::cell::RefCell<Option<Failure>> = const { std::cell::RefCell::new(None) };
 }
 
 fn lib_script(bytes: &[u8], coinbase: bool) -> Result<Script, Failure> {
@@ -416,6 +428,13 @@ impl Property for C01 {
     fn known(case: &Case, f: &Failure) -> Option<&'static str> {
         // the C02 known finding seen through a transaction: a script whose final direct push after an
         // OP_RETURN runs past the end of the script is accepted and shortened
+        if f.check == "satoshis_out_total_overflow" {
+            // the accessor returns u64: for output values summing past 2^64 - 1 it panics (overflow checks) or wraps
+            let m = case_bytes(case)?;
+            let d = wire::decode_tx(&m).ok()?;
+            let total: u128 = d.tx.outs.iter().map(|x| x.value as u128).sum();
+            return if total > u64::MAX as u128 { Some("output-total-overflow") } else { None };
+        }
         if f.check != "accepts_malformed_script" {
             return None;
         }
@@ -448,6 +467,17 @@ impl Property for C01 {
     }
 
     fn check(case: &Case) -> CheckResult {
+        DEFERRED.with(|d| d.borrow_mut().take());
+        let o = Self::check_inner(case)?;
+        match DEFERRED.with(|d| d.borrow_mut().take()) {
+            Some(f) => Err(f),
+            None => Ok(o),
+        }
+    }
+}
+
+impl C01 {
+    fn check_inner(case: &Case) -> CheckResult {
         let mut o = Outcome::new();
         match case {
             Case::Tx { tx, build } => {
